@@ -223,6 +223,7 @@ fn rule(state: &mut BlockState, silent: bool) -> bool {
     };
 
     let old_node = std::mem::replace(&mut state.node, new_node);
+    state.level += 1;
 
     //
     // Iterate list items
@@ -291,7 +292,9 @@ fn rule(state: &mut BlockState, silent: bool) -> bool {
             }
         } else {
             state.line = next_line;
+            state.level += 1;
             state.md.block.tokenize(state);
+            state.level -= 1;
         }
 
         // If any of list item is tight, mark list as tight
@@ -360,6 +363,7 @@ fn rule(state: &mut BlockState, silent: bool) -> bool {
     }
 
     // Finalize list
+    state.level -= 1;
     let mut node = std::mem::replace(&mut state.node, old_node);
     node.srcmap = state.get_map(start_line, next_line - 1);
     state.node.children.push(node);
